@@ -5,6 +5,8 @@ let string_of_outcome = function
   | OverflowError -> "OverflowError"
   | UB -> "UB"
 
+let dk = function "run" -> DRun | "opq" -> DOpaque | c -> DNum (z_of_string c)
+
 let handle = function
   | ["div_int"; w; s; bc; a; b] ->
       string_of_z (div_int (z_of_string w) (bool_of_string s) (bool_of_string bc) (z_of_string a) (z_of_string b))
@@ -16,6 +18,23 @@ let handle = function
       string_of_outcome (div_node (bool_of_string g) (z_of_string w) (bool_of_string s) (bool_of_string bc) (z_of_string a) (z_of_string b))
   | ["mod_node"; w; s; bc; a; b] ->
       string_of_outcome (mod_node (z_of_string w) (bool_of_string s) (bool_of_string bc) (z_of_string a) (z_of_string b))
+  (* decision table of DivNode / ModNode (M_DivNode):
+       <zc> <oq> <cdir> <cforced> ... ; divisor kind: run | opq | <integer constant> *)
+  | ["decisions"; zc; oq; cd; cf; im; s; d] ->
+      let (((z, m), c), k) = decisions {zc = bool_of_string zc; oq = bool_of_string oq}
+          {cdir = bool_of_string cd; cforced = bool_of_string cf} (bool_of_string im) (bool_of_string s) (dk d) in
+      String.concat " " (List.map (fun b -> if b then "1" else "0") [z; m; c; k])
+  | ["div_stmt"; zc; oq; cd; cf; w; s; d; a; b] ->
+      string_of_outcome (div_stmt {zc = bool_of_string zc; oq = bool_of_string oq}
+          {cdir = bool_of_string cd; cforced = bool_of_string cf} (z_of_string w) (bool_of_string s) (dk d)
+          (z_of_string a) (z_of_string b))
+  | ["mod_stmt"; zc; oq; cd; cf; w; s; d; a; b] ->
+      string_of_outcome (mod_stmt {zc = bool_of_string zc; oq = bool_of_string oq}
+          {cdir = bool_of_string cd; cforced = bool_of_string cf} (z_of_string w) (bool_of_string s) (dk d)
+          (z_of_string a) (z_of_string b))
+  | ["divmod"; g; w; s; a; b] ->
+      string_of_outcome (divmod_q (bool_of_string g) (z_of_string w) (bool_of_string s) (z_of_string a) (z_of_string b)) ^ " | " ^
+      string_of_outcome (divmod_r (bool_of_string g) (z_of_string w) (bool_of_string s) (z_of_string a) (z_of_string b))
   | ["div_no_ovf"; w; s; bc; a; b] ->
       string_of_bool (div_int_no_overflow (z_of_string w) (bool_of_string s) (bool_of_string bc) (z_of_string a) (z_of_string b))
   | ["sh_cdiv"; a; b] -> string_of_z (sh_cdiv (z_of_string a) (z_of_string b))
